@@ -106,6 +106,10 @@ def swarm(prop, r, tier):
         cfg["names"] = R.pick(["plain", "fancy", "fancy"])
         if R.chance(0.05):
             cfg["names"] = "dot"  # names the dot language treats specially (separate class)
+    if cfg.get("wide") or cfg.get("chain"):
+        # every report costs hundreds of rows / sweeps here: short, sparse sessions
+        cfg["n_ops"] = min(cfg["n_ops"], 10)
+        cfg["sparse"] = True
     for f_ in os.environ.get("SIM_FORCE", "").split(","):
         if "=" in f_:
             v_ = f_.split("=")[1]
